@@ -93,8 +93,9 @@ let parse_out (s : string) : out option =
    (nth / nth_back, hence skip and step_by) discards at once: not reported, and for an owning iterator dropped on the spot *)
 let last_mask : bool list ref = ref []
 let pat_of s = if s = "-" then (last_mask := []; []) else begin
-    last_mask := List.init (String.length s) (fun i -> s.[i] = 'f' || s.[i] = 'b');
-    List.init (String.length s) (fun i -> s.[i] = 'F' || s.[i] = 'f') end
+    (* l..lL (executed as last()) and c..c (executed as count()) are front steps: l, c discarded, L reported *)
+    last_mask := List.init (String.length s) (fun i -> s.[i] = 'f' || s.[i] = 'b' || s.[i] = 'l' || s.[i] = 'c');
+    List.init (String.length s) (fun i -> s.[i] = 'F' || s.[i] = 'f' || s.[i] = 'l' || s.[i] = 'L' || s.[i] = 'c') end
 (* what the caller sees of a run whose model outcome is (items, events): discarded items vanish from the result; when
    the iterator owns the entries (owning = Some kind: 0 pairs, 1 keys, 2 values) their pairs count as dropped *)
 let mask_items (mask : bool list) (owning : int option) (o : out) (evs : events) : out * events =
@@ -348,7 +349,7 @@ let () =
            let api_reasons = (let f = flag "api" in if f = "1" || f = "?" then [] else
                                 match split ':' f with [_; r] -> split '+' r | _ -> ["unknown"]) in
            let has l = List.exists (fun r -> List.mem r l) api_reasons in
-           chk "api_order" (not (has ["iter"; "iter_rev"; "keys"; "values"; "keys_rev"; "values_rev"; "peek_lru"; "peek_mru"; "debug"]));
+           chk "api_order" (not (has ["iter"; "iter_rev"; "keys"; "values"; "keys_rev"; "values_rev"; "peek_lru"; "peek_mru"; "debug"; "iter_count"; "iter_last"; "iter_nth"; "iter_size_hint"; "iter_fold"]));
            chk "api_map" (not (has ["contains"; "peek_entry"; "peek"; "peek_owned"; "unknown"]));
            chk "api_len" (not (has ["len"; "is_empty"; "scalars"]));
            chk "ro" (flag "ro" = "1");
